@@ -525,6 +525,7 @@ func TestVerifC06Redundant(t *testing.T) {
 	rep.SetRule(fmt.Sprintf(c06RedundantRule, "replay", pct, ""))
 	rep.Assume("a redundant operation is part of a valid history exactly when the real precondition function accepts it (for ShrinkISR also the API's own 'leader cannot be removed' check); operations it refuses are counted and dropped")
 	rep.Assume("restart model and compared digest as in the replay unit")
+	c06VolatileNote(rep, 1)
 	root := kit.NewRNG(kit.Mix(kit.Seed(), 0xC06D))
 	nh := kit.EnvInt("C06_RED_HISTORIES", kit.Scale(90, 900))
 	seeds := make([]uint64, nh)
@@ -546,6 +547,7 @@ func TestVerifC06RedundantRestart(t *testing.T) {
 	const pct = 40
 	rep.SetRule(fmt.Sprintf(c06RedundantRule, "restart", pct, ", then the metadata API of the running server, which is the judge"))
 	rep.Assume("Level 2 waits for logical conditions only (leader elected, Raft barrier applied, group members no longer list a deleted stream); a watchdog expiry is reported as inconclusive")
+	c06VolatileNote(rep, 2)
 	root := kit.NewRNG(kit.Mix(kit.Seed(), 0xC06E))
 	nsc := kit.EnvInt("C06_RED_L2_SCENARIOS", kit.Scale(6, 48))
 	seeds := make([]uint64, nsc)
